@@ -19,11 +19,12 @@ Definition huge_head (bs : bytes) : bool :=
 Fixpoint has_huge (bs : bytes) : bool :=
   huge_head bs || match bs with [] => false | _ :: t => has_huge t end.
 
-(* Known finding C02-illformed-input-preserved: the first data item of the INPUT is itself not well-formed CBOR, the
-   library accepts it all the same (the hand-written / early generated array readers do not compare a definite array
-   length with the number of fields they read: "TODO: check finite len somewhere"), and a type that keeps the bytes it
-   was read from (PlutusData, FixedTransaction, FixedTransactionBody, ...) re-emits them verbatim.  An ill-formed
-   re-serialisation of a WELL-FORMED input is never in this class. *)
+(* Known finding C02-illformed-input-preserved: the INPUT is not exactly one well-formed CBOR data item (its first
+   item is ill-formed, or the typed reader consumed bytes beyond the first well-formed item), the library accepts it
+   all the same (the hand-written / early generated array readers do not compare a definite array length with the
+   number of fields they read: "TODO: check finite len somewhere"), and a type that keeps the bytes it was read from
+   (PlutusData, FixedTransaction, FixedTransactionBody, ...) re-emits them verbatim.  An ill-formed re-serialisation
+   of an input that IS one well-formed item is never in this class. *)
 Definition first_item_wf (bs : bytes) : bool := is_ok (parse_one bs).
 
 Inductive verdict := Holds | Fails | FailsKnownHuge | FailsKnownPreserved.
@@ -36,7 +37,7 @@ Definition judge (cbor_out : bool) (input : bytes) (o : obs) : verdict :=
   | OOk b =>
       if cbor_out then
         (if item_wf b then Holds
-         else if is_nil input || first_item_wf input then Fails else FailsKnownPreserved)
+         else if is_nil input || item_wf input then Fails else FailsKnownPreserved)
       else Holds
   | OPanic | OAbort => if has_huge input then FailsKnownHuge else Fails
   | OTimeout => Fails
